@@ -22,6 +22,7 @@ func (fr *Frame) call(in ssa.Instruction, c *ssa.CallCommon, st *State, pc Term)
 	if !fr.top || fr.contract == nil || fr.lastCallee == "" {
 		return res
 	}
+	lastCallee, lastOrd := fr.lastCallee, fr.lastOrd
 	for _, cs := range fr.contract.CallSites {
 		if cs.Clause.Kind == "callset" && calleeMatches(cs.Callee, fr.lastCallee) && (cs.Ordinal == 0 || cs.Ordinal == fr.lastOrd) {
 			fr.csMatched[cs] = true
@@ -38,15 +39,44 @@ func (fr *Frame) call(in ssa.Instruction, c *ssa.CallCommon, st *State, pc Term)
 			fr.vc.ghostSet(env.with(vars), st, cs)
 			continue
 		}
-		if cs.Clause.Kind != "callassume" {
+		if cs.Clause.Kind != "callassume" && cs.Clause.Kind != "calllet" {
 			continue
 		}
-		if calleeMatches(cs.Callee, fr.lastCallee) && (cs.Ordinal == 0 || cs.Ordinal == fr.lastOrd) {
+		if calleeMatches(cs.Callee, lastCallee) && (cs.Ordinal == 0 || cs.Ordinal == lastOrd) {
 			fr.csMatched[cs] = true
 			env := fr.specEnv(st, pc)
 			env.old = pre
 			vars := map[string]TV{}
 			sig := c.Signature()
+			if cs.Clause.Kind == "calllet" {
+				// "at call X let NAME = E": name the value of E in the state
+				// right after the call; the name lives in the symbolic store
+				// (path-sensitive, havoced by loops that contain the call)
+				as, ats := fr.callArgTerms(c)
+				for i, a := range as {
+					vars[fmt.Sprintf("arg%d", i)] = TV{a, ats[i]}
+				}
+				for i, r := range res {
+					vars[fmt.Sprintf("result%d", i)] = TV{r, sig.Results().At(i).Type()}
+				}
+				if len(res) == 1 {
+					vars["result"] = TV{res[0], sig.Results().At(0).Type()}
+				}
+				tv, err := env.with(vars).eval(cs.Clause.E)
+				if err != nil {
+					fr.vc.specError(cs.Clause, err)
+					continue
+				}
+				st.cells[letKey{cs.Let}] = fr.vc.def("let:"+cs.Let, tv.T)
+				if fr.letTypes == nil {
+					fr.letTypes = map[string]types.Type{}
+					fr.letSorts = map[string]Sort{}
+				}
+				fr.letTypes[cs.Let] = tv.Typ
+				fr.letSorts[cs.Let] = tv.T.Sort
+				recordLetInfo(fr.vc.fname, cs.Let, tv.T.Sort, tv.Typ)
+				continue
+			}
 			for i, r := range res {
 				vars[fmt.Sprintf("result%d", i)] = TV{r, sig.Results().At(i).Type()}
 			}
@@ -99,7 +129,7 @@ func (fr *Frame) callInner(in ssa.Instruction, c *ssa.CallCommon, st *State, pc 
 		// "at call close assert ..." (and other builtins with side effects):
 		// call-site assertions of the enclosing contract apply to builtins too,
 		// under the name "builtin.<name>" (matched by the suffix "<name>").
-		if fr.top && fr.contract != nil && (b.Name() == "close" || b.Name() == "delete" || b.Name() == "panic") {
+		if fr.top && fr.contract != nil && (b.Name() == "close" || b.Name() == "delete" || b.Name() == "panic" || b.Name() == "append") {
 			name := "builtin." + b.Name()
 			var bargs []Term
 			var btypes []types.Type
@@ -129,7 +159,12 @@ func (fr *Frame) callInner(in ssa.Instruction, c *ssa.CallCommon, st *State, pc 
 				}
 			}
 		}
-		return fr.builtin(in, b, c, st, pc)
+		res := fr.builtin(in, b, c, st, pc)
+		if fr.top && fr.contract != nil && b.Name() == "append" {
+			// "at call append#n let X = result" / "... assume": handled by call()
+			fr.lastCallee, fr.lastOrd = "builtin.append", fr.callOrd["builtin.append"]
+		}
+		return res
 	}
 	var args []Term
 	var argTypes []types.Type
@@ -274,6 +309,51 @@ func (fr *Frame) callInner(in ssa.Instruction, c *ssa.CallCommon, st *State, pc 
 		res = append(res, fr.freshTyped("res:"+shortCallee(calleeName), sig.Results().At(i).Type(), st, pc))
 	}
 	return res
+}
+
+// letKey keys a spec-level name bound by "at call X let NAME = E" in
+// State.cells.
+type letKey struct{ name string }
+
+func (k letKey) Name() string                  { return "let:" + k.name }
+func (k letKey) String() string                { return "let:" + k.name }
+func (k letKey) Type() types.Type              { return tInt }
+func (k letKey) Parent() *ssa.Function         { return nil }
+func (k letKey) Referrers() *[]ssa.Instruction { return nil }
+func (k letKey) Pos() token.Pos                { return token.NoPos }
+
+// callArgTerms returns the argument terms of a translated call as the
+// call-site clauses see them (arg0 = receiver for interface method calls).
+func (fr *Frame) callArgTerms(c *ssa.CallCommon) ([]Term, []types.Type) {
+	var args []Term
+	var ts []types.Type
+	if c.IsInvoke() {
+		args = append(args, fr.val(c.Value))
+		ts = append(ts, c.Value.Type())
+	}
+	for _, a := range c.Args {
+		args = append(args, fr.val(a))
+		ts = append(ts, a.Type())
+	}
+	return args, ts
+}
+
+// calleeNameOf names the callee of a call the way callInner does, without
+// translating it (used to find the calls that bind let names inside loops).
+func (fr *Frame) calleeNameOf(c *ssa.CallCommon) string {
+	if b, ok := c.Value.(*ssa.Builtin); ok {
+		return "builtin." + b.Name()
+	}
+	if c.IsInvoke() {
+		return fr.vc.specs.ifaceName(c)
+	}
+	if ci, ok := fr.closures[c.Value]; ok {
+		return funcName(ci.fn)
+	}
+	if callee := c.StaticCallee(); callee != nil {
+		return funcName(callee)
+	}
+	return fieldFuncName(c.Value)
 }
 
 // calleeMatches reports whether a call-site clause written for pattern names
@@ -649,6 +729,14 @@ func (fr *Frame) modularCall(fc *FuncContract, callee *ssa.Function, c *ssa.Call
 	}
 	vc.atCalleeEnsures = shortCallee(fc.Name)
 	for _, e := range fc.Ensures {
+		// The channel-operation ghosts are per-activation counters: they count
+		// the operations the function under verification executes in its own
+		// body. What a callee's contract says about its own counters means
+		// nothing to a caller. (Clauses about names bound by the callee's own
+		// "let" clauses are dropped like clauses naming callee locals.)
+		if mentionsAny(e.Src, chanGhostNames) {
+			continue
+		}
 		vc.assumeClause(pc, post, e)
 	}
 	vc.atCalleeEnsures = ""
@@ -663,6 +751,32 @@ func (fr *Frame) modularCall(fc *FuncContract, callee *ssa.Function, c *ssa.Call
 		}
 	}
 	return res
+}
+
+// mentionsAny reports whether the clause text uses one of the names as an
+// identifier.
+func mentionsAny(src string, names []string) bool {
+	for _, n := range names {
+		from := 0
+		for {
+			k := strings.Index(src[from:], n)
+			if k < 0 {
+				break
+			}
+			a, b := from+k, from+k+len(n)
+			okL := a == 0 || !isIdentByte(src[a-1])
+			okR := b == len(src) || !isIdentByte(src[b])
+			if okL && okR {
+				return true
+			}
+			from = b
+		}
+	}
+	return false
+}
+
+func isIdentByte(c byte) bool {
+	return c == '_' || (c >= '0' && c <= '9') || (c >= 'a' && c <= 'z') || (c >= 'A' && c <= 'Z') || c >= 0x80
 }
 
 // scalarArgs reports whether all arguments are heap-independent values.
@@ -912,6 +1026,7 @@ func (fr *Frame) appendBuiltin(c *ssa.CallCommon, st *State, pc Term) Term {
 	inPlace := vc.def("inplace", le(newLen, sCap(s)))
 	// fresh backing array for the reallocating case
 	nb := vc.allocRef(st, pc)
+	vc.assumeRType(pc, nb, c.Args[0].Type())
 	ncap := vc.fresh("appcap", SInt)
 	vc.assume(pc, le(newLen, ncap))
 	res := vc.def("app", ite(inPlace, mkSlice(sBase(s), sOff(s), newLen, sCap(s)), mkSlice(nb, tZero, newLen, ncap)))
@@ -944,6 +1059,7 @@ func (fr *Frame) mapHeaps(st *State, mt types.Type) (has, val, ln Term, ks, vs S
 func (fr *Frame) makeMap(in *ssa.MakeMap, st *State, pc Term) {
 	vc := fr.vc
 	ref := vc.allocRef(st, pc)
+	vc.assumeRType(pc, ref, in.Type())
 	has, _, ln, ks, _ := fr.mapHeaps(st, in.Type())
 	st.heaps[mapHasName(in.Type())] = vc.def("h", store(has, ref, Term{fmt.Sprintf("((as const %s) false)", arraySort(ks, SBool)), arraySort(ks, SBool)}))
 	st.heaps[mapLenName(in.Type())] = vc.def("h", store(ln, ref, tZero))
@@ -1107,6 +1223,29 @@ func (fr *Frame) next(in *ssa.Next, st *State, pc Term) {
 // --------------------------------------------------------------- channels
 
 func (fr *Frame) send(in *ssa.Send, st *State, pc Term) {
+	// "at call send assert ...": call-site assertions of the enclosing
+	// contract on send statements (arg0 = channel, arg1 = value sent)
+	if fr.top && fr.contract != nil {
+		name := "builtin.send"
+		fr.callOrd[name]++
+		for _, cs := range fr.contract.CallSites {
+			if cs.Clause.Kind != "callsite" || !calleeMatches(cs.Callee, name) {
+				continue
+			}
+			if cs.Ordinal != 0 && cs.Ordinal != fr.callOrd[name] {
+				continue
+			}
+			fr.csMatched[cs] = true
+			env := fr.specEnv(st, pc)
+			vars := map[string]TV{"arg0": {fr.val(in.Chan), in.Chan.Type()}, "arg1": {fr.val(in.X), in.X.Type()}}
+			g, err := env.with(vars).evalBool(cs.Clause.E)
+			if err != nil {
+				fr.vc.specError(cs.Clause, err)
+			} else {
+				fr.vc.oblige("callsite", cs.Clause.Label, fmt.Sprintf("send#%d:%s", fr.callOrd[name], labelOr(cs.Clause.Label, "assert")), pc, g, cs.Clause.Src)
+			}
+		}
+	}
 	fr.vc.chanSendObligation(fr, in.Chan, fr.val(in.X), st, pc)
 	fr.vc.chanCount("chsends", fr.val(in.Chan), tTrue, st)
 	fr.vc.chanLast(fr.val(in.Chan), fr.val(in.X), tTrue, st)
@@ -1155,6 +1294,7 @@ func (fr *Frame) recv(in *ssa.UnOp, st *State, pc Term) {
 		okT := vc.fresh("recvok", SBool)
 		fr.tuples[in] = []Term{ite(okT, v, vc.zero(elem)), okT}
 		vc.chanCount("chrecvs", fr.val(in.X), okT, st)
+		vc.chanCount("chrecvsclosed", fr.val(in.X), not(okT), st)
 		vc.chanLastNamed("chlastrecv", fr.val(in.X), v, okT, st)
 		return
 	}
@@ -1179,6 +1319,7 @@ func (fr *Frame) selectOp(in *ssa.Select, st *State, pc Term) {
 			v := fr.freshTyped("selrecv", elem, st, pc)
 			vc.chanRecvAssume(fr, s.Chan, v, st, and(pc, eq(idx, intLit(int64(i)))))
 			vc.chanCount("chrecvs", fr.val(s.Chan), and(eq(idx, intLit(int64(i))), okT), st)
+			vc.chanCount("chrecvsclosed", fr.val(s.Chan), and(eq(idx, intLit(int64(i))), not(okT)), st)
 			vc.chanLastNamed("chlastrecv", fr.val(s.Chan), v, and(eq(idx, intLit(int64(i))), okT), st)
 			res = append(res, v)
 		} else {
